@@ -24,7 +24,7 @@ from ..common import rng_for, b2j
 
 LEVEL = "exploration"
 SHARDS = {"quick": 8, "thorough": 16}
-REQUIRED = ("seeded_cookieless_cache_situations", "direction_ladder_histories", "construct_probes_judged", "aba_same_process_steps", "definitions_probed", "cache_hits_observed", "cache_rewrites_observed", "same_length_variant_switches",
+REQUIRED = ("seeded_truncated_cache_situations", "seeded_cookieless_cache_situations", "direction_ladder_histories", "construct_probes_judged", "aba_same_process_steps", "definitions_probed", "cache_hits_observed", "cache_rewrites_observed", "same_length_variant_switches",
             "stale_pyc_situations", "orphan_pyc_situations", "seeded_foreign_cache_situations", "same_process_redefinitions",
             "bytecode_on_definitions", "bytecode_off_definitions", "earlier_classes_reprobed", "option_only_switches")
 MIN_NONTRIVIAL = 20
@@ -226,6 +226,13 @@ def run_history(run, rng, pool, scratch, hid, sources, nsteps):
                             txt = "".join(l for l in txt.splitlines(True) if "BISTURI_PACKET_COOKIE" not in l)
                             tamper = "seed-foreign-without-cookie:%s" % other.tag
                             run.count("seeded_cookieless_cache_situations")
+                        elif rng.random() < 0.45:
+                            # what a writer that died (or an older release that wrote in place) leaves: a prefix of a module, cut anywhere -
+                            # inside a string, an identifier, a statement
+                            k = rng.randrange(1, max(2, len(txt) - 1))
+                            txt = txt[:k]
+                            tamper = "seed-foreign-truncated-at-%d:%s" % (k, other.tag)
+                            run.count("seeded_truncated_cache_situations")
                         os.makedirs(procs.cache_dir(workdir), exist_ok=True)
                         with open(cf, "w") as f:
                             f.write(txt)
